@@ -48,11 +48,15 @@ pub struct P {
     pub paused: bool,
     /// the vAMM's own `insurance_fund` config field points at an outsider account
     pub vamm_ins_outsider: bool,
+    /// seed of the symbolic fee ratios: 0 = (1%, 2%), 1 = toll seeded at 0, 2 = spread seeded at 0
+    /// (a concolic prefix pins "fee is non-zero" decisions of its witness: the zero-fee regions
+    /// have to be the witness of a scenario of their own)
+    pub fee_seed: u8,
 }
 
 impl P {
     pub fn new(prop: &'static str, side: Side, seed: u64) -> P {
-        P { prop, native: false, dec: 9, fees: false, side, wide: false, seed, partial_sym: false, full_prefix: false, concrete_prefix: false, sym_lev: false, sym_lim: false, sym_ratios: false, bystanders: prop == "C10", sym_oracle: false, sym_counter: false, fault: None, real_feed: false, with_trend: false, attached: false, sym_funds: false, paused: false, vamm_ins_outsider: false }
+        P { prop, native: false, dec: 9, fees: false, side, wide: false, seed, partial_sym: false, full_prefix: false, concrete_prefix: false, sym_lev: false, sym_lim: false, sym_ratios: false, bystanders: prop == "C10", sym_oracle: false, sym_counter: false, fault: None, real_feed: false, with_trend: false, attached: false, sym_funds: false, paused: false, vamm_ins_outsider: false, fee_seed: 0 }
     }
     pub fn native(mut self) -> P {
         self.native = true;
@@ -113,8 +117,8 @@ impl P {
         cfg.real_feed = self.real_feed;
         let d = cfg.d();
         if self.fees {
-            cfg.toll = ratio("toll", d, d / 100);
-            cfg.spread = ratio("spread", d, d / 50);
+            cfg.toll = ratio("toll", d, if self.fee_seed == 1 { 0 } else { d / 100 });
+            cfg.spread = ratio("spread", d, if self.fee_seed == 2 { 0 } else { d / 50 });
         }
         if self.partial_sym {
             cfg.partial_ratio = ratio("partial_ratio", d, d / 4);
@@ -182,6 +186,16 @@ impl P {
         self.sym_funds = true;
         self
     }
+    pub fn toll0(mut self) -> P {
+        self.fees = true;
+        self.fee_seed = 1;
+        self
+    }
+    pub fn spread0(mut self) -> P {
+        self.fees = true;
+        self.fee_seed = 2;
+        self
+    }
     pub fn paused(mut self) -> P {
         self.paused = true;
         self
@@ -227,6 +241,7 @@ impl P {
             + if self.with_trend { ".trend" } else { "" }
             + if self.attached { ".attached" } else { "" }
             + if self.sym_funds { ".symfunds" } else { "" }
+            + ["", ".toll0", ".spread0"][self.fee_seed as usize]
             + if self.paused { ".paused" } else { "" }
             + if self.vamm_ins_outsider { ".vamm-ins-outsider" } else { "" }
     }
